@@ -541,6 +541,10 @@ func (a *SidecarAcceptor) handleServerMessage(
 
 		if err := a.matchSign(msg.Sign); err != nil {
 			sdcrLog.Errorf("unable to handle sign message: %v", err)
+			if a.pendingBatch == nil {
+				return a.sendRejectBatch(msg.Sign.BatchId, nil, err)
+			}
+
 			return a.sendRejectBatch(
 				a.pendingBatch.ID[:], a.pendingBatch, err,
 			)
@@ -651,6 +655,9 @@ func (a *SidecarAcceptor) matchSign(
 	msg *auctioneerrpc.OrderMatchSignBegin) error {
 
 	// Assert we're in the correct state to receive a sign message.
+	if a.pendingBatch == nil {
+		return fmt.Errorf("no pending batch, got: %x", msg.BatchId)
+	}
 	if !a.isPending(msg.BatchId) {
 		return fmt.Errorf("pending batchID was: %x got: %x",
 			a.pendingBatch.ID[:], msg.BatchId)
